@@ -120,3 +120,55 @@ func vpH_C31_compact_float() {
 	vpAssert(orig == before, "original unchanged")
 	vpReach("end")
 }
+
+// Copying into a used target (the buffer reuse every iterator and ring buffer relies on) gives the same
+// histogram as a fresh copy: nothing of the target's previous content survives.
+func vpH_C31_copyto_dirty_target() {
+	mk := func(variant int) *FloatHistogram {
+		switch variant {
+		case 0:
+			return &FloatHistogram{}
+		case 1:
+			return &FloatHistogram{Schema: 2, ZeroThreshold: 0.5, ZeroCount: vpXNonNeg(), Count: vpXNonNeg(), Sum: vpFloat64(), CounterResetHint: GaugeType,
+				PositiveSpans: []Span{{Offset: 1, Length: 2}, {Offset: 3, Length: 1}}, PositiveBuckets: []float64{1, vpXNonNeg(), 3},
+				NegativeSpans: []Span{{Offset: -2, Length: 1}}, NegativeBuckets: []float64{vpXNonNeg()}}
+		default:
+			return &FloatHistogram{Schema: CustomBucketsSchema, Count: vpXNonNeg(), Sum: vpFloat64(), CustomValues: []float64{1, 2.5},
+				PositiveSpans: []Span{{Offset: 0, Length: 3}}, PositiveBuckets: []float64{vpXNonNeg(), 0, 2}}
+		}
+	}
+	src := mk(vpShape("source", 0, 2))
+	dst := mk(vpShape("target", 0, 2))
+	fresh := src.Copy()
+	src.CopyTo(dst)
+	vpObserve("nspans", len(dst.PositiveSpans))
+	same := func(a, b *FloatHistogram) bool {
+		ok := a.Schema == b.Schema && a.CounterResetHint == b.CounterResetHint &&
+			math.Float64bits(a.ZeroThreshold) == math.Float64bits(b.ZeroThreshold) && math.Float64bits(a.ZeroCount) == math.Float64bits(b.ZeroCount) &&
+			math.Float64bits(a.Count) == math.Float64bits(b.Count) && math.Float64bits(a.Sum) == math.Float64bits(b.Sum) &&
+			len(a.PositiveSpans) == len(b.PositiveSpans) && len(a.NegativeSpans) == len(b.NegativeSpans) &&
+			len(a.PositiveBuckets) == len(b.PositiveBuckets) && len(a.NegativeBuckets) == len(b.NegativeBuckets) && len(a.CustomValues) == len(b.CustomValues)
+		if !ok {
+			return false
+		}
+		for i := range a.PositiveSpans {
+			ok = ok && a.PositiveSpans[i] == b.PositiveSpans[i]
+		}
+		for i := range a.NegativeSpans {
+			ok = ok && a.NegativeSpans[i] == b.NegativeSpans[i]
+		}
+		for i := range a.PositiveBuckets {
+			ok = vpAnd(ok, math.Float64bits(a.PositiveBuckets[i]) == math.Float64bits(b.PositiveBuckets[i]))
+		}
+		for i := range a.NegativeBuckets {
+			ok = vpAnd(ok, math.Float64bits(a.NegativeBuckets[i]) == math.Float64bits(b.NegativeBuckets[i]))
+		}
+		for i := range a.CustomValues {
+			ok = ok && a.CustomValues[i] == b.CustomValues[i]
+		}
+		return ok
+	}
+	vpAssert(same(dst, fresh), "CopyTo into a used target equals a fresh copy, field by field")
+	vpAssert(same(src, fresh), "the source is unchanged")
+	vpReach("end")
+}
